@@ -1,19 +1,21 @@
 """C11 — primitive distance functions return the global minimum distance (convex pairs, by certificate)."""
 from . import dist_common as DC
 
-FUNCTIONS = ["distance3d.distance." + f for f in DC.FUNCS if f != "point_to_circle"]
+FUNCTIONS = ["distance3d.distance." + f for f in DC.FUNCS if f != "point_to_circle"] + ["distance3d.distance.line_to_circle (closed-form branches only: lines through a point of the circle axis)"]
 OUTSIDE = DC.OUTSIDE_FUNCS + ["point_to_circle (non-convex target: no finite certificate)", "the 5e-3 bisection clause (line_to_circle)"]
 STUBS = []
 ASSUMPTIONS = ["the property's own exclusion is applied as an assumption on the sweep parameter: direction cosines between the two primitives' axes/normals/edges are not strictly inside (0,1e-2) of 0 or of 1"]
-BOUNDS = {"quick": "2 base primitive pairs x 11 one-parameter sweeps per function (29 convex-pair functions); optimality stated as a finite separating-plane certificate over vertices / invariant directions / closed-form support values - never as a quantifier over competing points",
+BOUNDS = {"quick": "2 base primitive pairs x 11 one-parameter sweeps per function (29 convex-pair functions); optimality stated as a finite separating-plane certificate over vertices / invariant directions / closed-form support values - never as a quantifier over competing points; exception line_to_circle on lines through the circle axis (3 circles x 8 rational directions, axis point c + t*n, t in [-3,3]): every competing line point (one more free real, |s| <= 8) against its closed-form nearest circle point, tolerance 5e-3*L",
           "thorough": "all corpus pairs x 17 sweeps incl. 2-parameter translations"}
 WALL_BUDGET = {"quick": 300, "thorough": 600}
 EXPECTED_EXCEPTIONS = ()
 
 
 def make(family, args):
+    if family == "line_to_circle:axis":
+        return DC.AxisLineCircle("C11", args, "opt")
     return DC.DistScenario("C11", family, args["a"], args["b"], args["sweep"], "opt", args.get("move", "b"))
 
 
 def jobs(tier, seed):
-    return [j for j in DC.make_jobs("C11", tier, seed) if j["family"] != "point_to_circle"]
+    return [j for j in DC.make_jobs("C11", tier, seed) if j["family"] != "point_to_circle"] + DC.axis_line_jobs(tier)
